@@ -99,7 +99,15 @@ class NpShim:
     def absolute(v: Any) -> Any:
         if not _is_sym(v):
             return _np.absolute(v)
-        return abs(v)
+        # numpy hands back a numpy scalar: int64 for Python ints that fit (abs(-2^63) wraps to itself), float64 for floats
+        c = cur()
+        if v.npy == "f64" or not v.is_int():
+            return SymNum(z3.If(v.z < 0, -v.z, v.z), False, "f64")
+        if v.npy is None and c.branch(z3.Or(v.z >= INT64, v.z < -INT64)):
+            raise Unsupported("numpy.absolute of a Python int beyond int64 (uint64 / object result)")
+        if c.branch(v.z == -INT64):
+            return SymNum(v.z, True, "i64")
+        return SymNum(z3.If(v.z < 0, -v.z, v.z), True, "i64")
 
     abs = absolute
 
@@ -130,28 +138,28 @@ class NpShim:
             for _ in range(int(n)):
                 r = r * az
             if c.branch(z3.And(r < INT64, r >= -INT64)):
-                return SymNum(r, True)
+                return SymNum(r, True, "i64")
             # wrapped into int64: r mod 2^64 re-centred
             k = z3.ToInt((r + INT64) / (2 * INT64))
-            return SymNum(r - z3.ToReal(k) * (2 * INT64), True)
+            return SymNum(r - z3.ToReal(k) * (2 * INT64), True, "i64")
         # float power
         if c.branch(z3.IsInt(bz)):
             try:
                 n = int(c.realize(bz))
             except NeedsBound:
-                return SymNum(POWR(az, bz), False)
+                return SymNum(POWR(az, bz), False, "f64")
             if n >= 0:
                 r = z3.RealVal(1)
                 for _ in range(n):
                     r = r * az
-                return SymNum(r, False)
+                return SymNum(r, False, "f64")
             if c.branch(az == 0):
                 return float("inf")
             r = z3.RealVal(1)
             for _ in range(-n):
                 r = r * az
-            return SymNum(1 / r, False)
-        return SymNum(POWR(az, bz), False)
+            return SymNum(1 / r, False, "f64")
+        return SymNum(POWR(az, bz), False, "f64")
 
 
 class MathShim:
